@@ -48,7 +48,7 @@ func runC26(c *core.Ctx) {
 			c.Broken("C26.paired-update", ss, "loop-carried (selection, sum)", c.P.Rel(ss.Pos()), "not found")
 		} else {
 			res := eng.PairedLoop(ss, header, selPhi, sumPhi, "Value")
-			c.Floor("iteration paths of SortedSearch", res.Paths, 4)
+			c.Floor("iteration paths of SortedSearch", res.Paths, 2)
 			if len(res.Mismatch) == 0 {
 				c.Hold("C26.paired-update", ss, "selection and sum move in lock-step on every iteration path", c.P.Rel(header.Instrs[0].Pos()), sprintf("%d paths", res.Paths))
 			}
